@@ -1,0 +1,141 @@
+//go:build verif
+
+package diskwriter
+
+// Add-only observation hooks for the C20 correspondence driver
+// (/verif/harness/cmd/disk).  Nothing here is compiled without the build
+// tag `verif`.
+
+import (
+	"time"
+
+	"github.com/jech/galene/conn"
+)
+
+// VerifTrackState is the projection of a diskTrack that the C20 model
+// speaks about.
+type VerifTrackState struct {
+	LastSeqno   uint16
+	LastValid   bool
+	Origin      uint32
+	OriginValid bool
+	HasWriter   bool
+	RemoteNTP   uint64
+	RemoteRTP   uint32
+	SavedKf     bool
+	SavedKfTs   uint32
+}
+
+func verifTrackState(t *diskTrack) VerifTrackState {
+	s := VerifTrackState{
+		LastSeqno:   uint16(value(t.lastSeqno)),
+		LastValid:   valid(t.lastSeqno),
+		Origin:      value(t.origin),
+		OriginValid: valid(t.origin),
+		HasWriter:   t.writer != nil,
+		RemoteNTP:   t.remoteNTP,
+		RemoteRTP:   t.remoteRTP,
+	}
+	if t.savedKf != nil {
+		s.SavedKf = true
+		s.SavedKfTs = t.savedKf.Timestamp
+	}
+	return s
+}
+
+// VerifState returns the state of a disk track obtained through
+// conn.UpTrack.AddLocal.
+func VerifState(d conn.DownTrack) (VerifTrackState, bool) {
+	t, ok := d.(*diskTrack)
+	if !ok {
+		return VerifTrackState{}, false
+	}
+	t.conn.mu.Lock()
+	defer t.conn.mu.Unlock()
+	return verifTrackState(t), true
+}
+
+// VerifConnState returns whether the connection's local origin is set, its
+// remote origin, and whether a file is open.
+func VerifConnState(d conn.DownTrack) (bool, uint64, bool) {
+	t, ok := d.(*diskTrack)
+	if !ok {
+		return false, 0, false
+	}
+	t.conn.mu.Lock()
+	defer t.conn.mu.Unlock()
+	return !t.conn.originLocal.Equal(time.Time{}), t.conn.originRemote,
+		t.conn.file != nil
+}
+
+// VerifAge simulates the passage of delta for the wall-clock state of a
+// connection (keyframe request rate limiter and time of the last keyframe
+// of every track, local time origin of the connection) by moving it into
+// the past.  d is any track of the connection.
+func VerifAge(d conn.DownTrack, delta time.Duration) {
+	t, ok := d.(*diskTrack)
+	if !ok {
+		return
+	}
+	t.conn.mu.Lock()
+	defer t.conn.mu.Unlock()
+	for _, tt := range t.conn.tracks {
+		if !tt.kfRequested.IsZero() {
+			tt.kfRequested = tt.kfRequested.Add(-delta)
+		}
+		if !tt.lastKf.IsZero() {
+			tt.lastKf = tt.lastKf.Add(-delta)
+		}
+	}
+	if !t.conn.originLocal.Equal(time.Time{}) {
+		t.conn.originLocal = t.conn.originLocal.Add(-delta)
+	}
+}
+
+// VerifConn is a bare diskConn (no file, no builders) on which the origin
+// arithmetic can be run with a chosen clock, as diskwriter_test.go does.
+type VerifConn struct {
+	c *diskConn
+}
+
+// VerifNewConn makes a bare connection with one track per remote.
+func VerifNewConn(remotes []conn.UpTrack) *VerifConn {
+	c := &diskConn{}
+	for _, r := range remotes {
+		c.tracks = append(c.tracks, &diskTrack{remote: r, conn: c})
+	}
+	return &VerifConn{c: c}
+}
+
+var verifEpoch = time.Date(1900, 1, 1, 0, 0, 0, 0, time.UTC)
+
+// SetOrigin calls setOrigin on track i; now is in nanoseconds since 1900.
+func (v *VerifConn) SetOrigin(i int, ts uint32, nowNs int64, clockrate uint32) {
+	v.c.tracks[i].setOrigin(ts, verifEpoch.Add(time.Duration(nowNs)), clockrate)
+}
+
+func (v *VerifConn) SetTimeOffset(i int, ntp uint64, rtp uint32, clockrate uint32) {
+	v.c.tracks[i].setTimeOffset(ntp, rtp, clockrate)
+}
+
+func (v *VerifConn) AdjustOrigin(i int, ts uint32) {
+	v.c.tracks[i].adjustOrigin(ts)
+}
+
+func (v *VerifConn) Track(i int) VerifTrackState {
+	return verifTrackState(v.c.tracks[i])
+}
+
+// Conn returns originLocal (nanoseconds since 1900, and whether it is set)
+// and originRemote.
+func (v *VerifConn) Conn() (int64, bool, uint64) {
+	if v.c.originLocal.Equal(time.Time{}) {
+		return 0, false, v.c.originRemote
+	}
+	return int64(v.c.originLocal.Sub(verifEpoch)), true, v.c.originRemote
+}
+
+// VerifSanitise is sanitise.
+func VerifSanitise(s string) string {
+	return sanitise(s)
+}
